@@ -397,7 +397,9 @@ def run(tier, seed, replay):
 
     # 4. cases: corpus first, then generated
     rng = random.Random(seed * 104729 + 19)
-    n = 44 if tier == "quick" else 1500
+    n = 40 if tier == "quick" else 1500
+    if os.environ.get("VERIF_C19_N"):          # development aid only (exploration with other sizes)
+        n = int(os.environ["VERIF_C19_N"])
     cycles = 64
     corpus = load_corpus()
     designs = corpus + G.gen_designs(rng, n)
@@ -431,6 +433,15 @@ def run(tier, seed, replay):
                 res.coverage.setdefault("frontend_reject_samples", []).append({"family": d["family"], "params": d.get("params"), "msg": j["harness"][:300]})
         for k, v in j["synth"].items():
             status_hist[k] = status_hist.get(k, 0) + v
+        if not isinstance(hres[i], tuple):
+            for s_ in hres[i]["synth"]:
+                if s_["status"] == "ok":
+                    res.count("netlists_total")
+                    res.count("cells_total", s_.get("cells", 0))
+                    if s_.get("rams"):
+                        res.count("netlists_with_ram_blocks")
+                    if s_.get("ffs"):
+                        res.count("netlists_with_flip_flops")
         if j.get("rtl") not in (None, "ok"):
             res.hist("rtl_status", j["rtl"])
         tot_known += j["known_bits"]
@@ -529,8 +540,8 @@ def _judge_all(designs, stims, cfgs, hres, model_bin):
     mo = run_model(model_bin, lines) if (lines and model_bin) else []
     cache = {}
     for ln, m in zip(lines, mo):
-        cache[hash(ln)] = m
+        cache[ln] = m
 
     def cached(lns):
-        return [cache.get(hash(x)) or "ERR not simulated" for x in lns]
+        return [cache.get(x) or "ERR not simulated" for x in lns]
     return [judge_case(d, stim, cf, h, model_bin, runner=cached) for d, stim, cf, h in zip(designs, stims, cfgs, hres)]
